@@ -107,8 +107,10 @@ class Seam:
             out = (torch.arange(numel) % 2).to(dtype).mul(hi).reshape(tuple(shape))
         return out.to(device) if device is not None else out
 
-    def multinomial(self, probs, num_samples=1, replacement=False, *, generator=None, out=None):
+    def multinomial(self, probs=None, num_samples=1, replacement=False, *, generator=None, out=None, input=None):
         self.calls.append("multinomial")
+        if probs is None:
+            probs = input
         p2 = probs.reshape(-1, probs.shape[-1]) if probs.dim() > 1 else probs.reshape(1, -1)
         rows = []
         tied = None
@@ -164,17 +166,21 @@ class Seam:
 
     def randint(self, *args, generator=None, out=None, dtype=None, layout=None, device=None, requires_grad=False, **kw):
         self.calls.append("randint")
-        if "low" in kw or "high" in kw or "size" in kw:
-            low, high, size = kw.get("low", 0), kw["high"], kw["size"]
-            if args:
-                if len(args) == 1 and "high" not in kw:
-                    high = args[0]
-                elif len(args) == 1:
-                    low = args[0]
-        elif len(args) == 2:
-            low, high, size = 0, args[0], args[1]
+        # torch.randint(high, size) | torch.randint(low, high, size), each argument positional or keyword
+        args = list(args)
+        size = kw.get("size")
+        if size is None:
+            size = args.pop()
+        if "low" in kw and "high" in kw:
+            low, high = kw["low"], kw["high"]
+        elif "high" in kw:
+            low, high = (args[0] if args else 0), kw["high"]
+        elif "low" in kw:
+            low, high = kw["low"], args[0]
+        elif len(args) == 1:
+            low, high = 0, args[0]
         else:
-            low, high, size = args[0], args[1], args[2]
+            low, high = args[0], args[1]
         size = tuple(size)
         numel = int(math.prod(size)) if len(size) else 1
         c = self.choose("randint", 4 if high - low > 1 else 1)
@@ -266,6 +272,7 @@ class Seam:
         before = torch.get_rng_state()
         torch.multinomial = s.multinomial
         torch.Tensor.multinomial = lambda t, num_samples=1, replacement=False, **kw: s.multinomial(t, num_samples, replacement)
+        torch.multinomial = lambda *a, **kw: s.multinomial(*a, **kw)
         torch.rand = s.rand
         torch.rand_like = s.rand_like
         torch.randint = s.randint
